@@ -5,7 +5,9 @@ int xerbla_(char *s, int *i) { __CPROVER_assert(0, "sp_ienv is called with a leg
 void h_tempspace(void) {
   g_ret = superlu_@p@TempSpace(in_n, in_w, in_p);
   __CPROVER_assert(0, "canary: TempSpace returns");
-  if (in_n > 30000000) __CPROVER_assert(0, "canary: order above 3e7");
-  if (in_p == PMAX && in_w == 8 && in_n >= 40000) __CPROVER_assert(0, "canary: 64 threads, order 40000");
+  if (in_n > 1000000) __CPROVER_assert(0, "canary: order above 1e6");
+#if PFIX == 0
+  if (in_p == PMAX && in_w == 8 && in_n >= 40000) __CPROVER_assert(0, "canary: PMAX threads, order 40000");
+#endif
   if (g_ret > 2000000000) __CPROVER_assert(0, "canary: close to INT_MAX");
 }
